@@ -6,6 +6,7 @@
   square roots of the input endpoints, `C02_sqrt`).
 -/
 import MpProofs.IntervalMore
+import MpProofs.IntervalDiv
 
 namespace Mp
 
@@ -18,6 +19,15 @@ theorem C14_square {s : Mpi} (hs : FinIv s) {prec : ℤ} (hp : 0 ≤ prec) {x : 
 theorem C14_sqrt {s : Mpi} (hs : FinIv s) (hnn : 0 ≤ val s.1) {prec : ℤ} (hp : 0 < prec) {x : ℚ} (hx : MemIv x s) :
     ∃ r, mpi_sqrt s prec = .ok r ∧ CanonFin r.1 ∧ CanonFin r.2 ∧
       valK ℝ r.1 ≤ Real.sqrt (x : ℝ) ∧ Real.sqrt (x : ℝ) ≤ valK ℝ r.2 := mpi_sqrt_sound hs hnn hp hx
+
+/-- division when the denominator interval does not contain zero: `x / y` lies in the result for every `x ∈ s`, `y ∈ t`
+(all sign cases of the numerator; a negative denominator is handled by the code's exact negation of both operands) -/
+theorem C14_div {s t : Mpi} (hs : FinIv s) (ht : FinIv t) (h0 : 0 < val t.1 ∨ val t.2 < 0) {prec : ℤ} (hp : 0 < prec)
+    {x y : ℚ} (hx : MemIv x s) (hy : MemIv y t) :
+    ∃ r, mpi_div s t prec = .ok r ∧ FinIv r ∧ MemIv (x / y) r := by
+  rcases h0 with h | h
+  · exact mpi_div_pos_sound hs ht h hp hx hy
+  · exact mpi_div_neg_sound hs ht h hp hx hy
 
 example : FinIv (⟨1, 3, 0, 2⟩, fone) ∧ MemIv (-2) (⟨1, 3, 0, 2⟩, fone) := by
   refine ⟨⟨Or.inr ⟨by decide, by decide, by decide⟩, Or.inr ⟨by decide, by decide, by decide⟩, ?_⟩, ?_, ?_⟩ <;>
